@@ -4,6 +4,7 @@ package scen
 
 import (
 	"encoding/hex"
+	"errors"
 	"fmt"
 
 	"github.com/vapourismo/knx-go/knx"
@@ -112,13 +113,27 @@ func c12FullStack(mode int) func() {
 				mc.Log(GroupRx{uint16(ev.Destination), hex.EncodeToString(ev.Data)})
 			}
 		})
+		// UDP tunnel: the socket write of one acknowledgement may fail (a transient error); the gateway
+		// then repeats that telegram, which must surface exactly once all the same
+		failAt := -1
+		if mode == 0 {
+			failAt = []int{-1, 2, 13}[mc.Choose(3, mc.Free)]
+		}
 		for i, s := range c12FullShapes() {
 			f := c12FullFrame(i, s)
 			mc.Log(Injected{i, hex.EncodeToString(f.Data.(*cemi.AppData).Data)})
 			if mode == 2 {
 				ep.Inject(pack(&knxnet.RoutingInd{Payload: f}), nil)
 			} else {
+				if i == failAt {
+					ep.WriteErr = errors.New("injected write failure")
+				}
 				ep.Inject(pack(&knxnet.TunnelReq{Channel: 7, SeqNumber: uint8(i), Payload: f}), nil)
+				if i == failAt {
+					mc.Sleep(10 * ms)
+					ep.WriteErr = nil
+					ep.Inject(pack(&knxnet.TunnelReq{Channel: 7, SeqNumber: uint8(i), Payload: f}), nil)
+				}
 			}
 			mc.Sleep(10 * ms)
 		}
